@@ -279,6 +279,11 @@ func cmdCheck(args []string) int {
 			if seenWL[key] || perHarness[wj.j.Harness] >= maxW {
 				continue
 			}
+			if strings.HasPrefix(wj.w.Label, "uf:") {
+				// the model relies on the freedom of an uninterpreted function (e.g. a
+				// hash collision between 1-byte keys): not realisable natively
+				continue
+			}
 			seenWL[key] = true
 			perHarness[wj.j.Harness]++
 			f := filepath.Join(outDir, fmt.Sprintf("witness-%d.json", len(wjobs)))
